@@ -210,7 +210,7 @@ def main():
         "setup_cmd": "sh tools/setup.sh",
         "hooks": {
             "guard": "GFFUTILS_VERIF",
-            "enable": "no hooks: checks import /repo's working tree directly (pure Python); instrumentation is attached from outside (sqlite3 trace callback, wrapped tempfile factory in worker processes)",
+            "enable": "no hooks: checks import /repo's working tree directly (pure Python); instrumentation is attached from outside (sqlite3 trace callback, wrapped tempfile factory and open() of gffutils.create in C20 worker processes)",
             "baseline_off_cmd": "cd /repo && /venv/bin/python -m pytest -ra -q -p no:cacheprovider --timeout=900 --continue-on-collection-errors",
             "source_commits": [],
             "add_only": True,
